@@ -3,6 +3,7 @@ pub use self::char_counter::CharCounter;
 
 mod bigint;
 pub use self::bigint::BigInt;
+pub use self::bigint::BIGINT_MAX_BITS;
 
 mod bitvec;
 pub use self::bitvec::{
